@@ -148,7 +148,7 @@ def rule_b(ctx, out):
     if not _premise_only_compared_with_zero(f.node, {first} | loop_vars, out, "improves_criterion"):
         raise AnalysisError("improves_criterion: sign-domain premise failed: " + "; ".join(out.info.get("premise_failures", [])))
     ev = Evaluator(f.node)
-    for k in range(0, 3):
+    for k in range(0, 4 if ctx.tier == "thorough" else 3):
         for combo in itertools.product(SIGNS, repeat=1 + k):
             s0, others = combo[0], combo[1:]
             expected = s0 > 0 or (s0 == 0 and all(o >= 0 for o in others) and any(o > 0 for o in others))
